@@ -37,7 +37,7 @@ type c20Op struct {
 
 type c20Case struct{ Ops []c20Op }
 
-var c20Kinds = []string{"child", "child", "random", "random", "nest", "addproc", "addproc", "setmem", "setproc", "setcpu", "usage", "destroy", "destroy", "external", "external-partial", "concurrent-random", "concurrent-new", "reopen"}
+var c20Kinds = []string{"child", "child", "random", "random", "nest", "addproc", "addproc", "setmem", "setproc", "setcpu", "usage", "destroy", "destroy", "external", "external-partial", "concurrent-random", "concurrent-new", "reopen", "nest-existing"}
 
 func c20GenCase(rt *rapid.T) c20Case {
 	var c c20Case
@@ -254,6 +254,9 @@ func c20Run(c c20Case, w *c20World, v1 bool, rec *vh.Recorder) error {
 			}
 		case "external":
 			rel := filepath.Join(h.path, "ext"+names[op.Name])
+			if op.K%3 == 0 {
+				rel = filepath.Join(h.path, "nest"+names[op.Name]) // a later Nest finds its name taken
+			}
 			if _, any := w.exists(rel); any {
 				continue
 			}
@@ -334,6 +337,12 @@ func c20Run(c c20Case, w *c20World, v1 bool, rec *vh.Recorder) error {
 			var wg sync.WaitGroup
 			start := make(chan struct{})
 			name := "cc" + names[op.Name]
+			deep := v1 && op.Kind == "concurrent-new" && op.Val%2 == 0
+			if deep {
+				// a multi-level name whose parent does not exist yet (v1 creates parents; v2 refuses such names)
+				name = fmt.Sprintf("ccdeep%d-%s/leaf", i, names[op.Name])
+				classes = append(classes, "concurrent-new/missing-parent")
+			}
 			for k := 0; k < op.K; k++ {
 				wg.Add(1)
 				go func(k int) {
@@ -361,6 +370,12 @@ func c20Run(c c20Case, w *c20World, v1 bool, rec *vh.Recorder) error {
 					created++
 				}
 			}
+			if deep {
+				fresh = 0
+				if all, _ := w.exists(filepath.Join(h.path, name)); all {
+					fresh = 1
+				}
+			}
 			if created > fresh {
 				key := "C20:concurrent-creators-not-distinct"
 				return vh.Violf(key, "%s: %d concurrent callers were each told they created a new group, but only %d new directories appeared under %s", desc(i, op), created, fresh, h.path)
@@ -374,13 +389,22 @@ func c20Run(c c20Case, w *c20World, v1 bool, rec *vh.Recorder) error {
 				_ = seen
 			}
 			// the created groups are cleaned up by the deferred sweep; they are not used further
-		case "nest":
+		case "nest", "nest-existing":
 			ms := members(h.path)
-			if len(ms) == 0 {
+			if len(ms) == 0 && op.Kind == "nest" {
 				continue
 			}
 			name := "nest" + names[op.Name]
 			rel := filepath.Join(h.path, name)
+			if _, any := w.exists(rel); !any && op.Kind == "nest-existing" {
+				// somebody else made a group of that name first
+				for _, ctrl := range w.ctrls {
+					if err := os.Mkdir(w.dir(ctrl, rel), 0o755); err != nil {
+						return vh.Infraf("external mkdir: %v", err)
+					}
+				}
+				external[rel] = true
+			}
 			_, existed := w.exists(rel)
 			nh, err := h.cg.Nest(name)
 			if err != nil {
@@ -392,6 +416,9 @@ func c20Run(c c20Case, w *c20World, v1 bool, rec *vh.Recorder) error {
 			handles = append(handles, &c20Handle{cg: nh, path: rel, created: !existed})
 			if !existed {
 				creators[rel] = len(handles) - 1
+			} else {
+				nt = true
+				classes = append(classes, "nest-onto-pre-existing")
 			}
 			for _, m := range ms {
 				where[m] = rel
